@@ -40,10 +40,14 @@ def line(rng):
         rr = rng.random()
         if rr < 0.2:
             return c
-        sep = rng.choice([b" ", b" ", b" ", b"  ", b" \t", b"\t", b" \xa0", b"   "])
-        return c + sep + arg(rng)
+        sep = rng.choice([b" ", b" ", b" ", b"  ", b" \t", b"\t", b" \xa0", b"   ", b"\r", b"\x0c"])
+        # trailing white space (CRLF files, stray blanks) belongs to the argument: it is matched byte for byte
+        tail = rng.choice([b"", b"", b"", b"", b" ", b"\t", b"\r", b" \t "])
+        return c + sep + arg(rng) + tail
     if r < 0.88:
         return rng.choice([b"", b" ", b"\t", b"  \t ", b"\r", b"\xa0", b" \x0b"])
     if r < 0.94:
-        return rng.choice([b"@", b"@foo", b"@foo bar", b"@CWD /x", b"@cwd\t/x", b"@ name x", b"@option foo", b"@option", b"@option \xff", b"@ignore x", b"@name", b"@mode \xff"])
+        return rng.choice([b"@", b"@foo", b"@foo bar", b"@CWD /x", b"@cwd\t/x", b"@ name x", b"@option foo", b"@option", b"@option \xff", b"@ignore x", b"@name", b"@mode \xff",
+                           b"@option preserve ", b"@option preserve\t", b"@option preserve\r", b"@option  preserve", b"@option preserve x", b"@option Preserve",
+                           b"@comment\thi there", b"@mode\t0644", b"@ignore\r", b"@ignore ", b"@name\rfoo-1", b"@cwd\x0c/x"])
     return rng.choice([b" leading", b"  @name x", b"\t@cwd /y", b" ", b"x "])
